@@ -315,6 +315,38 @@ def run_meta():
     except ValueError:
         pass
 
+    import functools
+
+    def injecting(fn):
+        @functools.wraps(fn)
+        def w(*a, **k):
+            return fn("conn", *a, **k)
+
+        return w
+
+    def consuming(fn):
+        @functools.wraps(fn)
+        def w(*a, retries=1, **k):
+            return fn(*a, **k)
+
+        return w
+
+    def g(conn, x, y=2):
+        return (conn, x, y)
+
+    def h(x):
+        return ("h", x)
+
+    for plain, calls in ((injecting(g), [((5,), {}), ((5,), {"y": 7}), ((), {"x": 1})]),
+                         (consuming(h), [((3,), {}), ((3,), {"retries": 4}), ((), {"x": 2, "retries": 0})])):
+        deco = log_call(plain)
+        for a, k in calls:
+            want = outcome_of(plain, a, k)
+            got = world.run_isolated(lambda: outcome_of(deco, a, k))
+            if want[0] != got[0] or (want[0] == "ret" and want[1] != got[1]):
+                viol.append(("stacked-decorator:outcome-differs", {"fn": plain.__name__, "args": repr(a), "kwargs": repr(k),
+                                                                   "want": repr(want)[:100], "got": repr(got)[:100]}))
+
     class K(object):
         @log_call
         def m(self, a, b=1):
